@@ -187,19 +187,29 @@ def sentinels(ctx, rule='C05-R3'):
                   f'n_{which} = {T.show(ret, maxlen=200)}: expected None while the id column is absent, else the number '
                   'of distinct ids >= 0', instance=f'n_{which} counts distinct ids >= 0')
     g = p.find_method(k, '_get_cluster_ids')
-    if g is None:
-        raise AnalysisError(rule, 'anchor method vanished: _get_cluster_ids')
-    from sa.symexec import Executor
+    met = p.find_method(k, 'metarize')
+    if met is None:
+        raise AnalysisError(rule, 'anchor method vanished: metarize')
     for which in ('slices', 'groups', 'layers'):
-        s = fx.deep(g.qname, {'which': C(which)})[1]
         col = ('col', DATA, which[:-1] + '_id')
         uq = ('call', ('g', 'numpy.unique'), (col,), ())
         want = ('call', ('g', 'numpy.delete'), (uq, ('call', ('g', 'numpy.where'), (T.mk_cmp('==', uq, C(-1)),), ())), ())
         alt = T.mk_mask(uq, T.mk_cmp('!=', uq, C(-1)))
         alt2 = T.mk_mask(uq, ('cmp', 'le', C(0), uq))
-        ctx.check(s.ret in (want, alt, alt2), rule, g.qname, g.node.name, g.loc(),
-                  f"_get_cluster_ids('{which}') = {T.show(s.ret, maxlen=200)}: expected the distinct ids of column "
-                  f'{which[:-1]}_id without the sentinel -1', instance=f"_get_cluster_ids('{which}'): distinct ids minus -1")
+        if g is not None:
+            s = fx.deep(g.qname, {'which': C(which)})[1]
+            ctx.check(s.ret in (want, alt, alt2), rule, g.qname, g.node.name, g.loc(),
+                      f"_get_cluster_ids('{which}') = {T.show(s.ret, maxlen=200)}: expected the distinct ids of column "
+                      f'{which[:-1]}_id without the sentinel -1', instance=f"_get_cluster_ids('{which}'): distinct ids minus -1")
+            continue
+        # no separate helper: the enumeration the table builder walks through, wherever it is computed
+        ex, s = fx.deep(met.qname, {'which': C(which)})
+        its = [T.peel(l.iter) for l in ex.loops.values() if l.iter is not None and
+               T.contains(l.iter, lambda x: x == uq)]
+        ctx.check(bool(its) and all(it in (want, alt, alt2) for it in its), rule, met.qname, met.node.name, met.loc(),
+                  f"metarize('{which}') builds its rows from {T.show(its[0], maxlen=200) if its else None}: expected the "
+                  f'distinct ids of column {which[:-1]}_id without the sentinel -1',
+                  instance=f"metarize('{which}'): rows = distinct ids minus -1")
 
 
 def write_back_masks(ctx, rule='C05-R4'):
